@@ -40,7 +40,8 @@ def c08(tier):
     L = 5 if tier == "quick" else 9
     N = 20 if tier == "quick" else 40
     obs = [B.line_ob("C08", d, n, "SAFE", L) for d, n in B.DIALECTS]
-    obs += [B.framing_ob("C08", e, "SAFE", N) for e in ("BE", "LE")]
+    # little-endian framing at N=40 exceeds the memory budget (49M clauses); 28 bytes is the largest size measured to finish
+    obs += [B.framing_ob("C08", "BE", "SAFE", N), B.framing_ob("C08", "LE", "SAFE", N if tier == "quick" else 28)]
     obs += [B.main_ob("C08", "SAFE", ndebug=True), B.main_ob("C08", "SAFE", ndebug=False)]
     obs += [B.mapping_safe_ob("C08")]
     return obs, dict(assumptions=BASIC_ASSUME)
@@ -50,7 +51,8 @@ def c09(tier):
     L = 5 if tier == "quick" else 9
     N = 12 if tier == "quick" else 20
     obs = [B.line_ob("C09", d, n, "REJECT", L) for d, n in B.DIALECTS]
-    obs += [B.framing_ob("C09", e, "FRAME", N, nfiles=2) for e in ("BE", "LE")]
+    # two files per execution: N=20 gave no verdict in 1500 s; measured: BE N14 207 s, LE N14 1277 s (too close to the limit) -> thorough BE 14, LE 12
+    obs += [B.framing_ob("C09", "BE", "FRAME", 12 if tier == "quick" else 14, nfiles=2), B.framing_ob("C09", "LE", "FRAME", 12, nfiles=2)]
     obs += [B.refmono_ob("C09", e, N) for e in ("BE", "LE")]
     obs += [B.main_ob("C09", "FILES", ndebug=True)]
     return obs, dict(assumptions=BASIC_ASSUME, precheck=B.oracle_precheck)
